@@ -651,7 +651,9 @@ func zeroComp(c Comp) Term {
 		case SReal:
 			z = "0.0"
 		default:
-			panic("zeroComp nested array")
+			// nested array: the zero value of the inner array sort, recursively
+			inner := zeroComp(Comp{Sort: es, Kind: KArray})
+			return raw(fmt.Sprintf("((as const %s) %s)", c.Sort, inner.S), c.Sort)
 		}
 		return raw(fmt.Sprintf("((as const %s) %s)", c.Sort, z), c.Sort)
 	}
